@@ -359,6 +359,7 @@ def rule_mx6(ctx: Ctx) -> RuleResult:
     wss = ctx.site("rxsci/state/with_store.py", "with_store_mux_on_sources.on_subscribe")
     r.instances += 1
     saw_sub = False
+    sq = wss.module.scopes[wss.subscribe_fn].qualname
     for p in ctx.fn_paths(wss.module, wss.subscribe_fn, roles=wss.roles):
         r.paths += 1
         if p.outcome == "raise":
@@ -369,6 +370,18 @@ def rule_mx6(ctx: Ctx) -> RuleResult:
         topo = [k for k, e in enumerate(seq) if e.k == "call" and e.method == "set_topology"]
         ok = len(probes) == 1 and (not subs or (len(topo) == 1 and probes[0] < topo[0] < subs[0]))
         saw_sub = saw_sub or bool(subs)
+        # one topology for all the sources: the object every subscriber is probed with is the one registered in the store, and it
+        # is created once by the factory (a topology per subscriber would number the states of each source from 0 again, so the
+        # stateful operators behind two sources would share their slots)
+        if probes:
+            pt = seq[probes[0]].arg[3]
+            shared = pt is not None and pt[0] == "free" and len(pt) > 2 and not (pt[2] == sq or pt[2].startswith(sq + "."))
+            same = not topo or (seq[topo[0]].args and seq[topo[0]].args[0] == pt)
+            r.ob(shared and same, lambda p=p, pt=pt: Finding(
+                "MX-6", "with_store_mux_on_sources{shared-topology}", wss.module.where(wss.subscribe_fn),
+                "every source must be probed with the one topology that is registered in the store, created once for all sources; here the probe carries %s: "
+                "with a topology per subscriber the state ids of each source start from 0 again and the stateful operators behind different sources share "
+                "their slots" % (show(pt) if pt is not None else None), trace_of(p)))
         r.ob(ok, lambda p=p: Finding("MX-6", "with_store_mux_on_sources{probe-before-subscribe}", wss.module.where(wss.subscribe_fn),
                                      "each subscriber must be probed once, and the sources may be subscribed only after the topology is registered in the store "
                                      "(set_topology): stateful operators otherwise address states the store never created", trace_of(p)))
